@@ -450,6 +450,67 @@ func c14Same(what string, d, d2 *dawg.Dawg, ws, probes [][]byte) string {
 	return ""
 }
 
+// c14Unsafe pre-parses b the way GobDecode does, with the library's own integer decoder, and reports a count (nodes or
+// children) that is larger than 4096 and than the number of bytes left: GobDecode would then try to allocate that many
+// entries before failing, which can kill the process. It never triggers on the inputs the generators produce for the
+// unchanged library (all counts there are small); it exists so that a broken integer codec shows up as an oracle
+// failure and not as an out-of-memory crash of the harness.
+func c14Unsafe(b []byte) (reason string) {
+	defer func() {
+		if recover() != nil {
+			reason = ""
+		}
+	}()
+	pos := 0
+	next := func() (uint64, bool) {
+		x, w, err := dawg.VerifDecodeUint64(b[pos:])
+		if err != nil || w <= 0 || pos+w > len(b) {
+			return 0, false
+		}
+		pos += w
+		return x, true
+	}
+	big := func(x uint64) bool { return x > 4096 && x > uint64(len(b)-pos) }
+	n, ok := next()
+	if !ok {
+		return ""
+	}
+	if big(n) {
+		return fmt.Sprintf("a node count of %d for %d bytes of input", n, len(b))
+	}
+	for i := uint64(0); i < n; i++ {
+		if _, ok := next(); !ok {
+			return ""
+		}
+	}
+	for i := uint64(0); i < n; i++ {
+		if _, ok := next(); !ok {
+			return ""
+		}
+		if _, ok := next(); !ok {
+			return ""
+		}
+		pos++ // final flag
+		c, ok := next()
+		if !ok {
+			return ""
+		}
+		if big(c) {
+			return fmt.Sprintf("a child count of %d with %d bytes of input left", c, len(b)-pos)
+		}
+		for j := uint64(0); j < c; j++ {
+			pos++ // label
+			if pos > len(b) {
+				return ""
+			}
+			if _, ok := next(); !ok {
+				return ""
+			}
+		}
+	}
+	return ""
+}
+
 func c14RunGob(args []string) Result {
 	adds, probes, ok := c12Parse(args)
 	if !ok {
@@ -460,7 +521,11 @@ func c14RunGob(args []string) Result {
 		return Result{Out: "finish-err"}
 	}
 	_, ws := c12Accepted(adds)
-	enc, err := d.GobEncode()
+	var enc []byte
+	var err error
+	if guard(func() string { enc, err = d.GobEncode(); return "ok" }) != "ok" {
+		return Result{Out: "panic", Oracle: "GobEncode panicked", Tags: []string{"panic"}}
+	}
 	if err != nil {
 		return Result{Out: "enc-err", Oracle: "GobEncode returned an error: " + err.Error()}
 	}
@@ -471,6 +536,10 @@ func c14RunGob(args []string) Result {
 			oracle = s
 		}
 	}
+	tags := c12Tags(ws, adds, d.VerifNodeTable())
+	if why := c14Unsafe(enc); why != "" {
+		return Result{Out: out + " dec=alloc", Oracle: "GobDecode of GobEncode's output would read " + why, Tags: tags}
+	}
 	d2 := new(dawg.Dawg)
 	status := guard(func() string {
 		if e := d2.GobDecode(enc); e != nil {
@@ -478,7 +547,6 @@ func c14RunGob(args []string) Result {
 		}
 		return "ok"
 	})
-	tags := c12Tags(ws, adds, d.VerifNodeTable())
 	if status != "ok" {
 		return Result{Out: out + " dec=" + status, Oracle: "GobDecode of GobEncode's output: " + status, Tags: tags}
 	}
@@ -504,7 +572,7 @@ func c14RunGob(args []string) Result {
 			return "skip"
 		}
 		oldEnc, e := old.GobEncode()
-		if e != nil || d3.GobDecode(oldEnc) != nil {
+		if e != nil || c14Unsafe(oldEnc) != "" || d3.GobDecode(oldEnc) != nil {
 			return "skip"
 		}
 		if e := d3.GobDecode(enc); e != nil {
@@ -565,6 +633,13 @@ func c14RunGobDec(args []string) Result {
 		in = b
 	}
 	valid := len(args) == 2 && args[1] == "r"
+	if why := c14Unsafe(in); why != "" {
+		r := Result{Out: "err", Tags: []string{"gobdec-alloc"}}
+		if valid {
+			r.Oracle = "GobDecode of a well-formed encoding would read " + why
+		}
+		return r
+	}
 	d := new(dawg.Dawg)
 	status := guard(func() string {
 		if e := d.GobDecode(in); e != nil {
@@ -601,6 +676,9 @@ func c14RunGobDec(args []string) Result {
 			again := guard(func() string {
 				d3 := new(dawg.Dawg)
 				raw, _ := hex.DecodeString(re)
+				if why := c14Unsafe(raw); why != "" {
+					return "would read " + why
+				}
 				if e := d3.GobDecode(raw); e != nil {
 					return "error " + e.Error()
 				}
@@ -657,10 +735,17 @@ func c14RunVarint(args []string) Result {
 		if err != nil {
 			return Result{Out: "bad-op"}
 		}
-		b := dawg.VerifEncodeUint64(x)
+		var b []byte
+		if guard(func() string { b = dawg.VerifEncodeUint64(x); return "ok" }) != "ok" {
+			return Result{Out: "panic", Oracle: fmt.Sprintf("encodeUint64(%d) panicked", x), Tags: []string{"nontrivial"}}
+		}
 		oracle := "" // only the round trip is demanded; the byte format itself is compared with the model, not judged
-		y, w, derr := dawg.VerifDecodeUint64(b)
-		if derr != nil || y != x || w != len(b) {
+		var y uint64
+		var w int
+		var derr error
+		if guard(func() string { y, w, derr = dawg.VerifDecodeUint64(b); return "ok" }) != "ok" {
+			oracle = fmt.Sprintf("decodeUint64(encodeUint64(%d)) = decodeUint64(%x) panicked", x, b)
+		} else if derr != nil || y != x || w != len(b) {
 			oracle = fmt.Sprintf("decodeUint64(encodeUint64(%d)) = (%d, %d, %v)", x, y, w, derr)
 		}
 		return Result{Out: hex.EncodeToString(b), Oracle: oracle, Tags: []string{"nontrivial", fmt.Sprintf("varint-len-%d", len(b))}}
@@ -673,7 +758,12 @@ func c14RunVarint(args []string) Result {
 			}
 			in = b
 		}
-		x, w, err := dawg.VerifDecodeUint64(in)
+		var x uint64
+		var w int
+		var err error
+		if guard(func() string { x, w, err = dawg.VerifDecodeUint64(in); return "ok" }) != "ok" {
+			return Result{Out: "panic", Tags: []string{"varint-dec-panic"}}
+		}
 		if err != nil {
 			return Result{Out: "err", Tags: []string{"varint-dec-err"}}
 		}
